@@ -361,7 +361,7 @@ def build_runner(crate_dir):
     return os.path.join(env['CARGO_TARGET_DIR'], 'release', 'vp_run')
 
 
-def verify_unit(unit, only=None, jobs=16, keep=False, playback=True, workdir=None):
+def verify_unit(unit, only=None, jobs=16, keep=False, playback=True, workdir=None, timeout=3600):
     """Returns dict(rows=[...], per_row={name: {...}}, stats, crate_dir). Raises Undecided."""
     d = workdir or common.scratch('kx-' + unit)
     rows, rows_mod = gen_crate(unit, d)
@@ -369,7 +369,7 @@ def verify_unit(unit, only=None, jobs=16, keep=False, playback=True, workdir=Non
     if not sel:
         raise Undecided('no contract rows selected for unit ' + unit)
     harnesses = ['%s::%s::proof' % (rows_mod, r) for r in sel]
-    run = run_kani(d, harnesses, jobs=jobs)
+    run = run_kani(d, harnesses, jobs=jobs, timeout=timeout)
     if run['rc'] is None:
         raise Undecided('cargo kani timed out')
     if 'error: could not compile' in run['out'] or re.search(r'^error(\[E\d+\])?:', run['out'], re.M) and 'Checking harness' not in run['out']:
